@@ -12,9 +12,9 @@
     `fl(v · fl(b − a)) < (b − a)/2`.
   * `uniformF64_quarter`: for a validated range with `low ≠ high`, every word whose unit value
     is `≤ 1/4` ends the loop at once.
+  * `unit64_word`: the unit value of the word `m·2^12 + r`.
 -/
 import MbVerif.Proofs.Sample
-import MbVerif.Proofs.C03Exact
 
 namespace Mb
 namespace Fp
@@ -203,7 +203,7 @@ theorem rne_le_bound {q : ℚ} (hq : 0 ≤ q) :
       rcases max_choice (ilog2 q - (((53 : Nat) : Int) - 1)) (-1074) with hm | hm
       · rw [hm]
         have h1 : ilog2 q - (((53 : Nat) : Int) - 1) = ilog2 q - 52 := by push_cast; ring
-        have h52 : pow2 52 = 2 ^ 52 := pow2_nat_eq 52
+        have h52 : pow2 52 = 2 ^ 52 := by rw [pow2_eq_zpow]; norm_num
         have h2 : pow2 (ilog2 q - 52) / 2 = pow2 (ilog2 q) * (1 / 2 ^ 53) := by
           rw [pow2_sub, h52]; ring
         rw [h1, h2]
@@ -303,7 +303,7 @@ end Fp
 namespace C13
 open Fp
 
-theorem Fmt.round_eq_fin {f : Fmt} {q r : ℚ} (h : f.round q = .fin r) :
+theorem round_eq_fin {f : Fmt} {q r : ℚ} (h : f.round q = .fin r) :
     r = rne f.p f.emin q ∧ r < pow2 f.emax ∧ -pow2 f.emax < r := by
   unfold Fmt.round at h
   simp only [] at h
@@ -328,7 +328,7 @@ theorem uniformF64_quarter {lo hi : F64} (h : Validate.distType (.uniform lo hi)
   have hsub : sub f64 (.fin b) (.fin a) = f64.round (b - a) := by
     simp [sub, neg, add, sub_eq_add_neg]
   rw [hh, hl, hsub] at hs
-  obtain ⟨hsr, hsmax, _⟩ := Fmt.round_eq_fin hs
+  obtain ⟨hsr, hsmax, _⟩ := round_eq_fin hs
   have hsr' : s = rne 53 (-1074) (b - a) := hsr
   have hv0 := unit64_nonneg w
   set v := unit64 w with hvdef
@@ -336,10 +336,21 @@ theorem uniformF64_quarter {lo hi : F64} (h : Validate.distType (.uniform lo hi)
   have hsrep : Rep 53 (-1074) s := by rw [hsr']; exact rne_rep 53 (by decide) _ _
   have hvs : v * s ≤ s := by
     have := mul_le_mul_of_nonneg_right hw hs0; linarith
-  have hmul : f64.round (v * s) = .fin (rne 53 (-1074) (v * s)) :=
-    round_fin_of_le (mul_nonneg hv0 hs0) hsrep hvs hsmax
   set pr := rne 53 (-1074) (v * s) with hprdef
   have hpr0 : 0 ≤ pr := rne_nonneg 53 (-1074) (mul_nonneg hv0 hs0)
+  have hprs : pr ≤ s := rne_le_of_le_rep 53 (by decide) _ hsrep hvs
+  have hmul : f64.round (v * s) = .fin pr := by
+    have hp := pow2_pos f64.emax
+    have h1 : ¬ pow2 f64.emax ≤ rne f64.p f64.emin (v * s) := by
+      show ¬ pow2 f64.emax ≤ pr
+      intro hc; linarith
+    have h2 : ¬ rne f64.p f64.emin (v * s) ≤ -pow2 f64.emax := by
+      show ¬ pr ≤ -pow2 f64.emax
+      intro hc; linarith
+    unfold Fmt.round
+    simp only []
+    rw [if_neg h1, if_neg h2]
+    rfl
   have hprlt : pr < (b - a) / 2 := by
     rw [hprdef, hsr']; exact quarter_prod_lt_half hra hrb hab hv0 hw
   -- the sum
@@ -369,6 +380,17 @@ theorem uniformF64_quarter {lo hi : F64} (h : Validate.distType (.uniform lo hi)
   unfold uniformF64
   rw [hres, hh]
   simp [hlt]
+
+/-- the unit value of the word with mantissa bits `m` and discarded low bits `r` -/
+theorem unit64_word (m r : Nat) (hm : m < 2 ^ 52) (hr : r < 2 ^ 12) :
+    unit64 (UInt64.ofNat (m * 2 ^ 12 + r)) = (m : ℚ) / 2 ^ 52 := by
+  have hlt : m * 2 ^ 12 + r < 2 ^ 64 := by omega
+  have htn : (UInt64.ofNat (m * 2 ^ 12 + r)).toNat = m * 2 ^ 12 + r := by
+    rw [UInt64.toNat_ofNat']; exact Nat.mod_eq_of_lt hlt
+  have hdiv : (m * 2 ^ 12 + r) / 2 ^ 12 = m := by omega
+  unfold unit64
+  rw [htn, hdiv]
+  norm_num
 
 end C13
 end Mb
